@@ -380,3 +380,19 @@ class Scratch:
 
     def __exit__(self, *a):
         shutil.rmtree(self.d, ignore_errors=True)
+
+
+def bf(x):
+    """exact Coq bigfloat literal (Base/BigF.v) of a Python float / int"""
+    fr = Fraction(x)
+    n, d = fr.numerator, fr.denominator
+    assert d & (d - 1) == 0
+    return '(bf_of (%d) (%d))' % (n, -(d.bit_length() - 1))
+
+
+def cbf(z):
+    z = complex(z)
+    return '(%s, %s)' % (bf(z.real), bf(z.imag))
+
+
+CASE_HEADER_BF = CASE_HEADER + 'From SVP Require Import Base.BigF.\n'
